@@ -175,7 +175,12 @@ def _check_probe(rec, family, base, rows_by_name, r, kind, val, expect):
     name = r['name']
     case = {'family': family, 'params': gen.set_param(base, name, gen.fmt(val)), 'probe': [name, kind, gen.fmt(val), expect],
             'cls': r['cls']}
-    if _close(val, r['default']) or _close(val, r['value']):
+    # the 'not provided' sentinel: a value equal to what the parameter currently holds is a no-op; for integer parameters the
+    # declared default is one too (the reader returns on it). A float equal to a declared default that differs from the
+    # current value is an ordinary input and is range-checked.
+    if _close(val, r['value']) or (_close(val, r['default']) and (r['kind'] == 'intParameter' or
+                                                                   any(a == name for a, _ in base))):
+        # (when the base text sets the parameter, r['value'] is not its initial value: the initial value is not known, skip)
         rec.count('skipped_sentinel_equals_default_or_current')
         return
     key = [r['cls'], name, kind] + ([gen.fmt(val)] if kind.startswith('rand') else [])
@@ -409,7 +414,11 @@ def _hip_enum(rec):
 
 def _hip_probe(rec, r, kind, val, expect):
     name = r['name']
-    if _close(val, r['default']) or _close(val, r['value']):
+    # the 'not provided' sentinel: a value equal to what the parameter currently holds is a no-op; for integer parameters the
+    # declared default is one too (the reader returns on it). A float equal to a declared default that differs from the
+    # current value is an ordinary input and is range-checked.
+    if _close(val, r['value']) or (_close(val, r['default']) and (r['kind'] == 'intParameter' or
+                                                                   any(a == name for a, _ in HIP_BASE))):
         rec.count('skipped_sentinel_equals_default_or_current')
         return
     case = {'family': 'hip-ra-x', 'params': gen.set_param(HIP_BASE, name, gen.fmt(val)),
